@@ -108,7 +108,7 @@ def decode_one(text: bytes | str, pos: int) -> tuple[int, int]:
             return error
         if b4 & 0xC0 != 0x80:
             return error
-        if (o := ((b1 & 0x07) << 18) | ((b2 & 0x3F) << 12) | ((b3 & 0x3F) << 6) | (b4 & 0x3F)) >= 0x10000:
+        if 0x10000 <= (o := ((b1 & 0x07) << 18) | ((b2 & 0x3F) << 12) | ((b3 & 0x3F) << 6) | (b4 & 0x3F)) <= 0x10FFFF:
             return o, pos + 4
         return error
     return error
